@@ -51,6 +51,20 @@ def c17a(ctx, tu):
                 a = str(e.get("args"))
                 ok = "location::file" in a and "location::line" in a and "trace_agent::os" in a
                 why = "the record must carry the expectation's file and line and the collected text"
+                if not ok and "trace_agent::os" in a:
+                    # the location may be kept as two scalar members: each must be initialised, in the agent's
+                    # constructor, from the file / line of the location it was given
+                    args = e.get("args") or []
+                    srcs = []
+                    for x in args[:2]:
+                        x = lib.strip_casts(x)
+                        if isinstance(x, list) and x[:1] == ["member"] and x[2] == ["this"]:
+                            for c in tu.find(AG + "::trace_agent"):
+                                for b2, i2 in c.events():
+                                    if i2["e"] == "init" and i2.get("field") == x[1]:
+                                        srcs.append(str(i2.get("x")))
+                    ok = len(srcs) == 2 and "location::file" in srcs[0] and "location::line" in srcs[1] and \
+                        all("'param', 0" in z for z in srcs)
         ctx.ob("C17.a", f.qe, ok, pattern=short_loc(e.get("loc", "")), unit=tu.name, detail="" if ok else why)
     return len(sites)
 
@@ -250,8 +264,14 @@ def c17d(ctx, tu):
     for fn in tu.need("trompeloeil::tracer::~tracer"):
         calls = [e for b, e in fn.events() if e["e"] == "call" and qe(e) == A["set_tracer"]]
         a0 = calls[0]["args"][0] if len(calls) == 1 and calls[0].get("args") else None
-        ok = isinstance(a0, list) and a0[:1] == ["member"] and \
-            erase(a0[1]) == lib.peer_roles(tu).get("prev_tracer", "trompeloeil::tracer::previous")
+        PREV = lib.peer_roles(tu).get("prev_tracer", "trompeloeil::tracer::previous")
+        ok = isinstance(a0, list) and a0[:1] == ["member"] and erase(a0[1]) == PREV
+        if not calls:
+            # ... or stores it into the current-tracer object directly
+            st = [e for b, e in fn.events() if e["e"] == "assign" and e.get("op") == "=" and
+                  lib.tree_name(lib.resolve(fn, e.get("lhs"))) == A["tracer_obj"]]
+            r0 = lib.strip_casts(st[0].get("rhs")) if len(st) == 1 else None
+            ok = isinstance(r0, list) and r0[:1] == ["member"] and erase(r0[1]) == PREV and r0[2] == ["this"]
         ctx.ob("C17.d", "trompeloeil::tracer::~tracer", ok, pattern=fn.pat, unit=tu.name,
                detail="" if ok else "a dying tracer must put the previously active tracer (or none) back in effect")
     for fn in tu.need(A["set_tracer"]):
@@ -268,7 +288,8 @@ def c17d(ctx, tu):
             continue
         for b, e in f.events():
             if e["e"] == "call" and qe(e) == A["tracer_obj"]:
-                ok = f.qe in (A["set_tracer"], A["dispatch"], AG + "::trace_agent")
+                # (a tracer's destructor may restore its predecessor itself; C17.d above decides what it stores)
+                ok = f.qe in (A["set_tracer"], A["dispatch"], AG + "::trace_agent", "trompeloeil::tracer::~tracer")
                 ctx.ob("C17.d.who", f.qe, ok, pattern=short_loc(e.get("loc", "")), unit=tu.name,
                        detail="" if ok else "%s accesses the current-tracer object; only set_tracer (write) and the "
                        "dispatch function / the agent it constructs (read at call time) may" % f.qe)
